@@ -22,8 +22,14 @@ Inductive op :=
   (* a further RegExp object c is made from the current one r and kept:
      mode 0  new RegExp(r)      1  new RegExp(r, undefined)       (flags arguments ignored)
      mode 2  RegExp(r.source, flags)      3  new RegExp(r.source, flags)
-     then c === r, c.source, c.global, c.ignoreCase, c.multiline, c.lastIndex and
-     "the five are own properties of c" are observed; r stays the current object *)
+     mode 4..9  the expression that made the first object (a literal, or a constructor
+             call) evaluated again: in a function called again, in a closure created per
+             call, in a loop body, by eval of its text, by a compiled Script run again,
+             under new RegExp(...)                               (7.8.5, 11.1: a new object
+             every time the literal is evaluated)
+     then "c is none of the objects made before", c.source, c.global, c.ignoreCase,
+     c.multiline, c.lastIndex, "the five are own properties of c" and "c has the
+     expando property put on every earlier object" are observed; r stays current *)
 | ONew (mode : Z) (g i m : bool)
   (* RegExp(r) === r, RegExp(r, undefined) === r, the error name of new RegExp(r, "g") *)
 | OIdent
@@ -83,7 +89,12 @@ Definition lim32 (l : option Z) : Z := match l with None => 4294967295 | Some x 
 
 (* one op on the current object (g, fi, fm, li): ES5-visible observations (without the
    trailing lastIndex), its new lastIndex, new legacy statics *)
-Definition do_op (o : op) (ob : robj) (leg : list ov) : option (list ov * Z * list ov) :=
+Definition new_flags (first ob : robj) (mode : Z) (g' i' m' : bool) : bool * bool * bool :=
+  let '(g, fi, fm, _) := ob in
+  let '(g0, i0, m0, _) := first in
+  if mode <? 2 then (g, fi, fm) else if mode <? 4 then (g', i', m') else (g0, i0, m0).
+
+Definition do_op (first : robj) (o : op) (ob : robj) (leg : list ov) : option (list ov * Z * list ov) :=
   let '(g, fi, fm, li) := ob in
   let mt := mk_mt fi fm in
   let wrap (x : option (list ov * Z)) := match x with None => None | Some (a, l) => Some (a, l, leg) end in
@@ -112,8 +123,8 @@ Definition do_op (o : op) (ob : robj) (leg : list ov) : option (list ov * Z * li
   | OProps => Some ([OS pat; OB g; OB fi; OB fm; OS ([47] ++ pat ++ [47] ++ flag_text g fi fm)], li, leg)
   | ONew mode g' i' m' =>
       (* 15.10.4.1: a new object, lastIndex 0; from a RegExp argument it takes pattern and flags *)
-      let '(g2, i2, m2) := if mode <? 2 then (g, fi, fm) else (g', i', m') in
-      Some ([OB false; OS pat; OB g2; OB i2; OB m2; OZ 0; OB true], li, leg)
+      let '(g2, i2, m2) := new_flags first ob mode g' i' m' in
+      Some ([OB true; OS pat; OB g2; OB i2; OB m2; OZ 0; OB true; OB false], li, leg)
   | OIdent =>
       (* 15.10.3.1: RegExp(R) with flags undefined returns R; 15.10.4.1: flags with a RegExp is a TypeError *)
       Some ([OB true; OB true; OS [84; 121; 112; 101; 69; 114; 114; 111; 114]], li, leg)
@@ -134,14 +145,15 @@ Fixpoint do_ops (ops : list op) (objs : list robj) (cur : nat) (leg : list ov) (
   | o :: rest =>
       let cur1 := match o with OSelect j => Nat.modulo j (length objs) | _ => cur end in
       let ob := nth cur1 objs (false, false, false, 0) in
-      match do_op o ob leg with
+      match do_op (nth 0 objs (false, false, false, 0)) o ob leg with
       | None => None
       | Some (a, li', leg') =>
           let '(g, fi, fm, _) := ob in
           let objs1 := set_obj cur1 (g, fi, fm, li') objs in
           let objs2 := match o with
                        | ONew mode g' i' m' =>
-                           objs1 ++ [if mode <? 2 then (g, fi, fm, 0) else (g', i', m', 0)]
+                           objs1 ++ [let '(g2, i2, m2) := new_flags (nth 0 objs (false, false, false, 0)) ob mode g' i' m' in
+                                     (g2, i2, m2, 0)]
                        | _ => objs1
                        end in
           do_ops rest objs2 cur1 leg' (acc ++ a ++ [OZ li'])
